@@ -127,7 +127,8 @@ class NDCubeSequenceBase:
         if isinstance(item, slice):
             result.data = self.data[item]
         else:
-            item = self._expand_ellipsis(tuple(item))
+            # A bare Ellipsis is an index in its own right, not something to iterate over.
+            item = self._expand_ellipsis((item,) if item is Ellipsis else tuple(item))
             if isinstance(item[0], numbers.Integral):
                 result = self.data[item[0]][item[1:]]
             else:
